@@ -1,16 +1,18 @@
 (* C01: two agents converge on the same, working candidate pair.
-   PARTIAL.  Proved here (single-agent half, every state): a pair BECOMES selected only while an
-   inbound STUN datagram is handled -- every other operation keeps the selection or drops it; with
-   C02 (only authenticated traffic with a live, address-matched transaction has any effect) and C03
-   (who may nominate) this is what the two-agent safety argument rests on.  The two-agent statements
-   themselves (no bidirectionally reachable pair => never Connected / never a selected pair; mirror
-   images at quiescence; both Connected after a fair loss-free suffix) are decided by the extracted
-   monitor C01.* on runs of two REAL agents over a harness-owned network (suite "pair": random
-   topologies with NATed endpoints and one-way links, loss / duplication / reordering, restarts), each
-   agent's half being simultaneously checked against the core model.  Not proved: the composed
-   (two-agent + network) invariant and the liveness part. *)
+   PARTIAL.  Proved here:
+   (1) two-agent SAFETY, for the composition of two agent-core state machines and a network that may
+       deliver, drop, duplicate and reorder every datagram (Model/TwoAgents.v): if no pair of
+       endpoints is reachable in both directions, then after EVERY schedule neither full agent holds
+       a Succeeded pair, neither has a selected pair, and neither is Connected or Disconnected;
+   (2) single agent, every state: a pair BECOMES selected only while an inbound STUN datagram is
+       handled -- every other operation keeps the selection or drops it.
+   Decided by the extracted monitor C01.* on runs of two REAL agents over a harness-owned network
+   (suite "pair": random topologies with NATed endpoints and one-way links, loss / duplication /
+   reordering, restarts), each agent's half being simultaneously checked against the core model:
+   mirror images at quiescence and both Connected after a fair loss-free suffix.  Not proved: the
+   mirror-image and liveness parts, and (1) for lite agents. *)
 From Coq Require Import ZArith Bool List.
-From Ice Require Import Model.AgentTypes Model.AgentCore Model.PairMonitor Gen.Consts Proofs.AgentFrame Proofs.AgentC01.
+From Ice Require Import Model.AgentTypes Model.AgentCore Model.PairMonitor Model.TwoAgents Gen.Consts Proofs.AgentFrame Proofs.AgentC01 Proofs.TwoAgentsProofs.
 Import ListNotations.
 Local Open Scope Z_scope.
 
@@ -18,6 +20,45 @@ Theorem C01_selection_set_only_by_inbound_stun_partial : forall cfg o,
   match o with InStun _ _ _ => True | _ => sat keeps_or_drops_selection (step_m cfg o) end.
 Proof. exact selection_set_only_by_inbound_stun. Qed.
 Print Assumptions C01_selection_set_only_by_inbound_stun_partial.
+
+Theorem C01_never_connected_without_bidirectional_path_partial : forall cfga cfgb t lua lpa lub lpb ops,
+  cf_lite cfga = false -> cf_lite cfgb = false -> topo_wf t -> topo_bidirectional t = false ->
+  let sy := sys_run cfga cfgb t (sys_init lua lpa lub lpb) ops in
+  (s_selected (sy_a sy) = None /\ s_selected (sy_b sy) = None) /\
+  (Forall (fun p => p_state p <> CandidatePairStateSucceeded) (s_checklist (sy_a sy)) /\
+   Forall (fun p => p_state p <> CandidatePairStateSucceeded) (s_checklist (sy_b sy))) /\
+  (s_closed (sy_a sy) = false -> s_conn (sy_a sy) <> ConnectionStateConnected /\ s_conn (sy_a sy) <> ConnectionStateDisconnected) /\
+  (s_closed (sy_b sy) = false -> s_conn (sy_b sy) <> ConnectionStateConnected /\ s_conn (sy_b sy) <> ConnectionStateDisconnected).
+Proof. exact never_connected_without_bidirectional_path. Qed.
+Print Assumptions C01_never_connected_without_bidirectional_path_partial.
+
+(* non-vacuity, and the hypothesis is needed: one host candidate each; the same schedule leaves both
+   agents Checking with nothing selected when the link carries only A->B, and brings both to
+   Connected on the same pair when it carries both directions *)
+Module C01_example_two_agents.
+  Definition cfg t := mkConfig false t 7 5000000000 false 25000000000 0 0 0 0 0 [] false false 1.
+  Definition aA := mkAddr false 167772161 5000.
+  Definition aB := mkAddr false 3232235777 6000.
+  Definition la := mkCand 1 1 1 aA 0 2130706431 1 None.
+  Definition lb := mkCand 1 1 1 aB 0 2130706431 1 None.
+  Definition topo lk := mkTopology [mkEndpoint 1 aA] [mkEndpoint 1 aB] [[lk]].
+  Definition sched :=
+    [SApi true (AddLocal la); SApi false (AddLocal lb); SApi true (Start true 3 4); SApi false (Start false 1 2);
+     SApi true (AddRemote (set_c_h 2 lb)); SApi false (AddRemote (set_c_h 2 la));
+     SApi true Tick; SDeliver 0; SDeliver 0; SApi false Tick; SDeliver 0; SDeliver 0;
+     SApi true (Advance 200000000); SApi true Tick; SDeliver 0; SDeliver 0; SDeliver 0; SDeliver 0;
+     SApi true (Advance 200000000); SApi true Tick; SDeliver 0; SDeliver 0; SDeliver 0; SDeliver 0].
+  Definition fin lk := sys_run (cfg 5) (cfg 6) (topo lk) (sys_init 1 2 3 4) sched.
+  Definition view lk := let s := fin lk in (s_conn (sy_a s), s_selected (sy_a s), s_conn (sy_b s), s_selected (sy_b s)).
+  Example hypotheses_hold : topo_wf (topo (true, false)) /\ topo_bidirectional (topo (true, false)) = false.
+  Proof.
+    split; [|reflexivity]. split; intros i Hi; (destruct i as [|i]; [split; reflexivity|cbn in Hi; exfalso; inversion Hi as [|? Hi']; inversion Hi']).
+  Qed.
+  Example one_way : view (true, false) = (ConnectionStateChecking, None, ConnectionStateChecking, None).
+  Proof. vm_compute. reflexivity. Qed.
+  Example both_ways : view (true, true) = (ConnectionStateConnected, Some 1, ConnectionStateConnected, Some 1).
+  Proof. vm_compute. reflexivity. Qed.
+End C01_example_two_agents.
 
 (* the pair monitor's mirror check is symmetric in the two sides' views of one (A endpoint, B endpoint) pair *)
 Example C01_example_mirror :
